@@ -288,8 +288,8 @@ func (g *gen) queueOp(protocol int) op {
 	o := op{kind: "q", seq: g.next, force: g.r.Chance(1, 3), proxyOrigin: g.r.Chance(1, 3)}
 	if isModern(protocol) {
 		o.id = 1 + g.r.Intn(3)
-	} else if g.r.Chance(1, 4) {
-		o.id = 1 + g.r.Intn(3)
+	} else if g.r.Bool() {
+		o.id = 1 + g.r.Intn(2) // repeated non-nil ids: a queued pack may carry the id of the applied one
 	}
 	if g.r.Bool() {
 		o.hash = 1 + g.r.Intn(5)
@@ -305,6 +305,8 @@ func (g *gen) responseOp(protocol int) op {
 		o.status = 0 // successful
 	case 5, 6:
 		o.status = 1 // declined
+	case 7:
+		o.status = 7 // discarded
 	default:
 		o.status = g.r.Intn(8)
 	}
@@ -332,6 +334,20 @@ func (g *gen) sequence(protocol, n int) []op {
 			ops = append(ops, g.queueOp(protocol))
 		case x < 16:
 			ops = append(ops, g.responseOp(protocol))
+		case x == 16 && g.r.Bool():
+			// a pack gets applied, the same id is queued again and answered with an arbitrary status
+			a := g.queueOp(protocol)
+			if a.id == 0 {
+				a.id = 1 + g.r.Intn(2)
+			}
+			b := g.queueOp(protocol)
+			b.id = a.id
+			fin := op{kind: "r", status: hx.Pick(g.r, []int{7, 7, 0, 1, 2, 5, 6}), id: hx.Pick(g.r, []int{0, a.id})}
+			if isModern(protocol) {
+				fin.id = a.id
+			}
+			acc := op{kind: "r", status: 0, id: fin.id}
+			ops = append(ops, a, acc, b, fin)
 		case x == 16:
 			ops = append(ops, op{kind: "c"})
 		case x == 17:
@@ -375,6 +391,14 @@ func fixed() []fixedSeq {
 		{767, []op{bOn, r(0, 2, 0)}},
 		// remove on a legacy client is refused by design; clear works
 		{754, []op{q(1, 0, 1, false, false), {kind: "x", id: 1}, r(3, 0, 0), r(0, 0, 0), {kind: "c"}}},
+		// a pack id that is applied is queued again and then DISCARDED: the applied pack is forgotten, the call returns
+		{754, []op{bOn, q(1, 1, 1, false, false), r(0, 0, 0), q(2, 1, 1, false, false), r(7, 0, 0), q(3, 2, 0, false, true), r(0, 0, 0)}},
+		{764, []op{q(1, 1, 1, false, false), r(3, 0, 0), r(0, 0, 0), q(2, 1, 1, true, false), r(7, 1, 0), r(7, 0, 0)}},
+		{340, []op{bOn, q(1, 2, 0, false, true), r(0, 0, 0), q(2, 3, 0, false, false), r(7, 0, 0), q(3, 2, 0, false, false), r(7, 0, 0)}},
+		{767, []op{bOn, q(1, 1, 1, false, false), r(0, 1, 0), q(2, 1, 1, false, false), r(7, 1, 0), r(7, 1, 0)}},
+		// every status against a queued pack, with and without an applied pack of the same id
+		{763, []op{bOn, q(1, 1, 0, false, false), r(0, 0, 0), q(2, 1, 0, false, false), r(2, 0, 0), q(3, 1, 0, false, false), r(5, 0, 0),
+			q(4, 1, 0, false, false), r(6, 0, 0), q(5, 1, 0, false, false), r(4, 0, 0), r(7, 0, 0)}},
 		// modern: per id
 		{765, []op{bOn, q(1, 1, 1, false, false), q(2, 2, 2, false, true), q(3, 1, 3, true, false), r(3, 1, 0), r(0, 1, 0),
 			r(1, 2, 0), r(1, 1, 0), r(0, 1, 0), {kind: "x", id: 1}, {kind: "c"}}},
